@@ -93,7 +93,7 @@ static int arena_free(void *p) {
     if (can != CANARY) W.led.canary_bad++;
     b->state = BLK_FREE;
     /* poison freed payload so a use-after-free read changes behaviour visibly */
-    memset(arena + off + 16, 0xDD, (b->size + 7u) & ~7u);
+    memset(arena + off + 16, (uint8_t)(W.fill ^ 0x7A), (b->size + 7u) & ~7u);
     uint32_t c;
     for (c = 0; c < AH.nclass; c++) if (AH.cls[c].size == b->size) break;
     if (c == AH.nclass) {
@@ -125,7 +125,9 @@ void vf_each_live(vf_block_cb cb, void *arg) {
 }
 uint32_t vf_alloc_serial(void) { return AH.serial; }
 
-static void heap_reset(void) { memset(&AH, 0, sizeof AH); }
+/* memory the core never obtained (beyond the break) also carries the fill pattern: a read past the end of a block
+ * then differs between the two fill runs of C02 */
+static void heap_reset(void) { size_t n = AH.brk + 131072 < VF_ARENA_SIZE ? AH.brk + 131072 : VF_ARENA_SIZE; memset(arena, W.fill, n); memset(&AH, 0, sizeof AH); }
 
 #else /* VF_SAN: libc malloc (ASan redzones), ledger table */
 #define LT_MAX 65536
@@ -173,6 +175,7 @@ static int fp_point(int kind) {
     int fail = 0;
     for (int i = 0; i < fp->ndev; i++) if (fp->dev[i] == n) fail = 1;
     if (fp->sticky_kind == kind && occ >= fp->sticky_from) fail = 1;
+    if (fp->one_kind == kind && occ == fp->one_n) fail = 1;
     if (fail) fp->took_effect++;
     return fail;
 }
@@ -402,7 +405,7 @@ void vf_world_init(size_t mtu, int wifi, uint8_t fill) {
     static const uint8_t hw[] = { 'H', 0, 'W', 0, '-', 0, '1', 0 };
     memcpy(W.host.hwid, hw, sizeof hw); W.host.hwid_len = sizeof hw;
     W.fill = fill;
-    W.fp.sticky_kind = -1;
+    W.fp.sticky_kind = -1; W.fp.one_kind = -1;
     vf_world_reset();
 }
 
@@ -415,7 +418,7 @@ void vf_world_reset(void) {
     memset(&W.led, 0, sizeof W.led);
     vf_faultplan keep = W.fp;
     memset(&W.fp, 0, sizeof W.fp);
-    W.fp.sticky_kind = -1;
+    W.fp.sticky_kind = -1; W.fp.one_kind = -1;
     (void)keep;
     for (int i = 0; i < VF_NIFACE; i++) { memset(recvbuf[i], 0, VF_MAXMTU + 64); W.iface[i].recv_prev_len = 0; }
     W.cur_request = 0; W.in_tick = 0;
